@@ -330,7 +330,7 @@ pub fn property() -> Property {
     Property {
         id: "C14",
         level: "exploration",
-        rule: "histories over uniquely tagged elements (as C04: root text with characters of every width, root array, root XML child list; both offset kinds; GC on/off) in which 1..4 sticky indexes are created at generated points, on generated replicas, at every kind of position (start, interior, end, both Assoc, from_type on the collection); each index is also copied through binary v1, binary v2 and serde JSON; after EVERY later step on the touched replica, and on every replica after a final flush, the original and the copies must resolve (get_offset) to the position of the anchoring element computed from the item list (hook branch_items: start of the element for After, end for Before, the gap of the tombstone if it was deleted), provided the replica knows the anchor; start/end indexes resolve to 0/len.  Non-trivial = some resolution happened with a deleted anchor; distinct = distinct generated case".into(),
+        rule: "histories over uniquely tagged elements (as C04: root text with characters of every width, root array, root XML child list; both offset kinds; GC on/off) in which 1..4 sticky indexes are created at generated points, on generated replicas, at every kind of position (start, interior, end, both Assoc, from_type on the collection); each index is also copied through binary v1, binary v2 and serde JSON; after EVERY later step on the touched replica, and on every replica after a final flush, the original and the copies must resolve (get_offset) to the position of the anchoring element computed from the item list (hook branch_items: start of the element for After, end for Before, the gap of the tombstone if it was deleted), provided the replica knows the anchor; start/end indexes resolve to 0/len.  nested-ends: indexes taken with from_type at the start/end of a text, array or XML element nested in the root map (scope Nested; empty or filled; created by clients of every id width up to 2^53-1), copied through binary v1/v2 and JSON (copies must equal the original), must keep resolving to 0 / the current length on the author and on a remote replica while both edit the collection.  Non-trivial = some resolution happened with a deleted anchor; distinct = distinct generated case".into(),
         assumptions: vec![
             "the position of a tombstone is read from the item order (hook branch_items); C04 checks that order independently".into(),
             "a replica that has collected the anchor may answer None (counted)".into(),
